@@ -216,10 +216,10 @@ Definition lex_string (r : str) : lx_out :=
             else (LxTok TkStringValue, [34; 34], r1)
         end
       else
-        (* the first character is not inspected by State::StringLiteral (the `continue` after
-           `state = State::StringLiteral`): a line terminator here is not reported *)
+        (* State::StringLiteralStart on a character other than the quote: backslash -> Backslash state;
+           line terminator -> add_err, StringLiteral; anything else -> StringLiteral *)
         let '(d, rest, e) := lx_scan_str (if c =? 92 then LxSBack else LxSStr) r1 in
-        (if e then LxErr else LxTok TkStringValue, 34 :: c :: d, rest)
+        (if lx_is_line_term c || e then LxErr else LxTok TkStringValue, 34 :: c :: d, rest)
   end.
 
 (* ---- one Cursor::advance on a non-empty remaining input c :: r ---- *)
